@@ -446,6 +446,9 @@ def near_misses():
            'да', 'tʀue', 'yes,no', 'true false', 'y\ny', 'on\toff', 'True.', 'T.', 'ok',
            'nein', 'ja', 'oui', 'si', 'Ⅰ', '¹', '١', 'o', 'fa', 'tr', 'of f', 'offf', 'nno',
            'yn', 'tf', 'b\'true\'', 'yes​', '﻿true', '_yes_', '(1)', '0x1', '1e0', 'yes\\n']
+    # texts that contain %-conversion specifiers (the strict error message quotes the input)
+    out += ['%d', '%s', '%x', '%c', '%5.2f', 'rate=%d', '%(val)s', 'is_public=%(flag)d', '100%', '%', '%%', '%r %r',
+            '{0}', '{}', '{x}', '$x', '\\1', '%(true)s']
     for w in WORDS:
         for i in range(len(w)):
             out.append(w[:i] + w[i + 1:])              # one character dropped
